@@ -22,7 +22,7 @@ def sentences_pool(rnd):
     out = []
     for n in (1, 2, 3, 5, 8, 12):
         ws = [rnd.choice(words) for _ in range(n)]
-        out.append(" ".join(ws).capitalize() + rnd.choice(".?!"))
+        out.append(" ".join(ws).capitalize() + rnd.choice(".?!") + rnd.choice(["", "", "", "'", '"', ")", "\u201d", "\u2019"]))
     return out
 
 
@@ -116,7 +116,7 @@ def documented_sentence_end(word):
 
 def check_heuristic(tier, viol):
     from flowmark.linewrapping.sentence_split_regex import heuristic_end_of_sentence
-    alphabet = ["a", "B", "c", "é", "1", ".", "!", "?", ")", '"', "\u201d", "-", "_"]
+    alphabet = ["a", "B", "c", "é", "1", ".", "!", "?", ")", '"', "\u201d", "-", "_", "'", "\u2019"]
     n = 0
     maxlen = 4 if tier == "quick" else 5
     for ln in range(1, maxlen + 1):
